@@ -7,7 +7,11 @@ expressions in order (objects by identity = index in the case's object table), o
 A case may carry `steps`: the query object is built once and evaluated before the first and after every step (a step =
 attribute assignments on the real objects, creation of objects, dropping of objects); the observation then is the
 ` | `-separated list of the per-evaluation observations, and the model/spec of the k-th evaluation is the pattern on the
-data of that moment (`Match.runSeq`, theorem `C11_history_independent`).
+data of that moment (`Match.runSeq`, theorem `C11_history_independent`).  Between (and before) the complete evaluations
+the same query object may also be evaluated and ABANDONED after k results (`peek`: the suspended iterator is kept alive or
+dropped), and the domain may be handed over as a list, a tuple, a one-shot generator or an iterator (`domkind`): the
+domain contents are the same, so the expected answers are (`C11_abandoned_irrelevant`); the rows an abandoned evaluation
+did hand out must be among the specified rows of that moment.
 
 The Lean spec printed by the driver is cross-checked on every case against `oracle_rows`, a direct Python predicate
 over the real objects that never looks at the Lean side or at krrood (run-time `isinstance`, `==`, `in`, `set`).
@@ -21,7 +25,7 @@ import eqlgen as G
 from core import Case, CheckBroken, Driver
 
 PID = "C11"
-LEAN_MODULES = ["KrroodVerif.Props.C11"]
+LEAN_MODULES = ["KrroodVerif.Props.C11", "KrroodVerif.Props.C11T"]
 THEOREMS = [
     "KrroodVerif.Match.C11_equiv_partial",
     "KrroodVerif.Match.C11_model_eq_spec_partial",
@@ -33,6 +37,7 @@ THEOREMS = [
     "KrroodVerif.Match.C11_matches_iff_rows",
     "KrroodVerif.Match.C11_history_independent",
     "KrroodVerif.Match.C11_seq_equiv_partial",
+    "KrroodVerif.Match.C11_abandoned_irrelevant",
     "KrroodVerif.Match.chain_wit_assigns",
     "KrroodVerif.Match.wit_iff_matchesAssigns",
     "KrroodVerif.Match.existsFilter_segments",
@@ -43,7 +48,61 @@ THEOREMS = [
     "KrroodVerif.Match.C11_cex_subclass_attribute",
     "KrroodVerif.Match.C11_cex_lazy_flatten",
     "KrroodVerif.Match.C11_cex_falsy_value",
+    # the desugaring as a table interpreter (Model/MatchTable.lean, Props/C11T.lean): second tie by translation
+    "KrroodVerif.Match.tableOk_table",
+    "KrroodVerif.Match.desugar_eq_interp",
+    "KrroodVerif.Match.desugar_eq_interp_table",
+    "KrroodVerif.Match.resolveAssignsWith_eq",
+    "KrroodVerif.Match.C11_equiv_of_tableOk",
+    "KrroodVerif.Match.C11_full_of_tableOk",
+    "KrroodVerif.Match.C11T_cex_tables",
 ]
+TRANSLATED = [
+    "KrroodVerif.Match.Translated.C11_table_translated_eq_model",
+    "KrroodVerif.Match.Translated.C11_table_translated_ok",
+    "KrroodVerif.Match.Translated.C11_translated_meets_property",
+]
+
+
+def extra_obligations():
+    """Second tie: regenerate the decision table of the desugaring from /repo's CURRENT `match.py` (Python ast, truth
+    tables of the source's own Boolean expressions) and have the kernel re-check that it equals the model's table
+    (`Match.table`; `desugar_eq_interp`: the interpreter run on a `TableOk` table builds the query `desugar Quirks.now`
+    builds, for every pattern) and that it is `TableOk`."""
+    import re
+    import subprocess
+    import core
+    from translate.c11_translate import generate as gen, TranslationError
+    try:
+        text = gen(core.REPO)
+    except (TranslationError, SyntaxError, OSError, RecursionError) as e:
+        return [{"name": n, "ok": False, "detail": f"translator rejected the source: {e}"} for n in TRANSLATED]
+    tmp = core.LEAN_DIR / ".lake" / "audit"
+    tmp.mkdir(parents=True, exist_ok=True)
+    f = tmp / f"C11Translated_{os.getpid()}.lean"
+    f.write_text(text + "".join(f"#print axioms {n}\n" for n in TRANSLATED))
+    try:
+        p = subprocess.run(["lake", "env", "lean", str(f)], cwd=str(core.LEAN_DIR), capture_output=True, text=True,
+                           timeout=600)
+    finally:
+        try:
+            f.unlink()
+        except OSError:
+            pass
+    out = " ".join(((p.stdout or "") + (p.stderr or "")).split())
+    res = []
+    for n in TRANSLATED:
+        m = re.search(r"'" + re.escape(n) + r"' depends on axioms: \[([^\]]*)\]", out)
+        none = re.search(r"'" + re.escape(n) + r"' does not depend on any axioms", out)
+        ax = [a.strip() for a in m.group(1).split(",")] if m else ([] if none else None)
+        # an error in one theorem must not hide the verdict of the others: Lean reports per declaration
+        failed = re.search(r"error[^']*" + re.escape(n.rsplit(".", 1)[1]), out) is not None
+        ok = ax is not None and set(ax) <= core.ALLOWED_AXIOMS and not failed and "sorryAx" not in (m.group(1) if m else "")
+        res.append({"name": n, "ok": ok, "axioms": ax,
+                    "detail": "regenerated table:\n" + text[text.find("def table"):text.find("/-- the decisions")]
+                              + (p.stdout or "")[-1500:] + (p.stderr or "")[-800:]})
+    return res
+
 MODEL_FUNCTION = ("Match.run with Quirks.now (F-C11-3..6 repaired, F-C11-1/2 open) = Match.desugar (Match._resolve, AttributeAssignment.resolve, "
                   "infer_condition_between_attribute_and_assigned_value) + Match.evalQuery/evalCond/evalT "
                   "(Model/Match.lean, on the value level of Model/Eql.lean)")
@@ -72,7 +131,10 @@ RULE = ("corpus, then random patterns (depth<=3 over Cabinet/Drawer/Handle-like 
         "SAME query object again (up to 3 evaluations) after 1-3 edits per step drawn from the same vocabulary: new "
         "scalar values, new lists (also replaced in place), other or newly created nested objects, objects unlinked, "
         "dropped and replaced by new ones (address reuse) - expected answer of every evaluation = the pattern on the "
-        "data of that moment; non-trivial = the specified "
+        "data of that moment; 30% of the cases hand the domain over as a one-shot generator / iterator / tuple and "
+        "30% start evaluations of the same query object that are ABANDONED after 0-3 results (iterator kept or "
+        "dropped) before the first complete evaluation and at the beginning / end of steps - the answers of the "
+        "complete evaluations must not change and the rows handed out must be specified rows; non-trivial = the specified "
         "answer is neither empty nor all candidate elements; distinct by case text")
 
 # ---------------------------------------------------------------------------------------------- static description
@@ -151,6 +213,10 @@ def sx_case(c) -> str:
     steps = ""
     if c.get("steps"):
         steps = " (steps" + "".join(" (st" + "".join(" " + sx_edit(e) for e in st) + ")" for st in c["steps"]) + ")"
+    if c.get("pre"):
+        steps += " (pre" + "".join(" " + sx_edit(e) for e in c["pre"]) + ")"
+    if c.get("domkind", "list") != "list":
+        steps += f" (domkind {c['domkind']})"
     return f"(m (pat {sx_pat(c['pat'])}) {dom} {objs} {SUB_SX} {SCHEMA_SX}{steps})"
 
 
@@ -159,8 +225,9 @@ def sx_obj(o) -> str:
             "".join(f" ({k} {sx_val(v)})" for k, v in o["fields"].items()) + ")")
 
 
-# edit := ("set", i, attr, value, in_place) | ("new", objspec) | ("free", i)
-# a step is the list of edits made between two evaluations of the SAME query object
+# edit := ("set", i, attr, value, in_place) | ("new", objspec) | ("free", i) | ("peek", k, keep)
+# a step is the list of edits made between two evaluations of the SAME query object; ("peek", k, keep) is an evaluation
+# of that query object abandoned after k results, the suspended iterator being kept alive (keep) or dropped
 def sx_edit(e) -> str:
     if e[0] == "set":
         return f"({'setip' if e[4] else 'set'} {e[1]} {e[2]} {sx_val(e[3])})"
@@ -168,6 +235,8 @@ def sx_edit(e) -> str:
         return f"(new {sx_obj(e[1])})"
     if e[0] == "free":
         return f"(free {e[1]})"
+    if e[0] == "peek":
+        return f"(peek {e[1]} {'keep' if e[2] else 'drop'})"
     raise ValueError(e)
 
 
@@ -216,6 +285,8 @@ def parse_case(line: str):
             return ("new", p_obj(e[1]))
         if e[0] == "free":
             return ("free", int(e[1]))
+        if e[0] == "peek":
+            return ("peek", int(e[1]), e[2] == "keep")
         raise ValueError(e)
 
     out = {
@@ -225,6 +296,10 @@ def parse_case(line: str):
     }
     if "steps" in d:
         out["steps"] = [[p_edit(e) for e in st[1:]] for st in d["steps"]]
+    if "pre" in d:
+        out["pre"] = [p_edit(e) for e in d["pre"]]
+    if "domkind" in d:
+        out["domkind"] = d["domkind"][0]
     return out
 
 
@@ -380,13 +455,19 @@ def apply_edit(e, objs) -> None:
         objs.append(C.CLASSES[o["cls"]](**{a: real_val(v, a, objs) for a, v in o["fields"].items()}))
     elif e[0] == "free":
         objs[e[1]] = None
+    elif e[0] == "peek":
+        pass  # an abandoned evaluation does not touch the data
     else:
         raise ValueError(e)
 
 
-def apply_step(st, objs) -> None:
-    for e in st:
-        apply_edit(e, objs)
+def apply_step(st, objs, peek=None) -> None:
+    """`peek(position, edit)`: performs an abandoned evaluation (only the implementation side passes it)"""
+    for j, e in enumerate(st):
+        if e[0] == "peek" and peek is not None:
+            peek(j, e)
+        else:
+            apply_edit(e, objs)
     if any(e[0] == "free" for e in st):
         import gc
         gc.collect(1)  # young generations only (cheap): the freed addresses become available to the objects
@@ -397,16 +478,30 @@ def _ids(objs):
     return {id(o): i for i, o in enumerate(objs) if o is not None}
 
 
-def _one(c) -> str:
-    """build the query ONCE; evaluate it; then, per step: edit the data, evaluate the same query object again"""
+def make_domain(kind: str, dom: list):
+    """the same contents as a list, a tuple, a one-shot generator or a one-shot iterator"""
+    if kind == "tuple":
+        return tuple(dom)
+    if kind == "gen":
+        return (x for x in dom)
+    if kind == "iter":
+        return iter(dom)
+    return dom
+
+
+def _one(c, peeks: Optional[list] = None) -> str:
+    """build the query ONCE; [abandoned evaluations;] evaluate it; then, per step: edit the data [and start evaluations
+    that are abandoned], evaluate the same query object again.  `peeks` collects `(segment | None, rows | exception)` of
+    the abandoned evaluations: the segment is the index of the complete evaluation that sees the same data."""
     K = _krrood()
     M, C = K["M"], K["C"]
     steps = c.get("steps") or []
+    kept = []  # suspended iterators of abandoned evaluations that stay alive until the end of the case
     try:
         _reset()
         objs = make_objects(c)
         p = c["pat"]
-        dom = [objs[i] for i in c["dom"]]
+        dom = make_domain(c.get("domkind", "list"), [objs[i] for i in c["dom"]])
         root = (M.entity_selection if p["sel"] else M.entity_matching)(C.CLASSES[p["cls"]], dom)
         m = root(**_kwargs(p["as"], objs))
         q = K["an"](m)
@@ -415,28 +510,68 @@ def _one(c) -> str:
     except Exception as e:  # noqa: BLE001
         return SEP.join(["exc:" + type(e).__name__] * (len(steps) + 1))
 
+    def row_of(r, ids) -> str:
+        if isinstance(desc, K["Entity"]):
+            return _row([r], ids)
+        return _row([r.data[v].value for v in sel], ids)
+
     def evaluate() -> str:
         try:
             ids = _ids(objs)
             rows = []
             for r in q.evaluate():
-                if isinstance(desc, K["Entity"]):
-                    rows.append(_row([r], ids))
-                else:
-                    rows.append(_row([r.data[v].value for v in sel], ids))
+                rows.append(row_of(r, ids))
             r = None
             return canon(rows)
         except Exception as e:  # noqa: BLE001
             return "exc:" + type(e).__name__
 
+    def peeker(st, segment_before: Optional[int], segment_after: Optional[int]):
+        def is_data(e):
+            return e[0] != "peek"
+
+        def peek(j, e):
+            # which complete evaluation sees the data this abandoned one sees?
+            if not any(is_data(x) for x in st[:j]):
+                seg = segment_before
+            elif not any(is_data(x) for x in st[j + 1:]):
+                seg = segment_after
+            else:
+                seg = None
+            got: Any = []
+            try:
+                ids = _ids(objs)
+                it = iter(q.evaluate())
+                for _ in range(e[1]):
+                    try:
+                        r = next(it)
+                    except StopIteration:
+                        break
+                    got.append(row_of(r, ids))
+                r = None
+                if e[2]:
+                    kept.append(it)
+                del it
+            except Exception as ex:  # noqa: BLE001
+                got = "exc:" + type(ex).__name__
+            if peeks is not None:
+                peeks.append((seg, got))
+        return peek
+
+    try:
+        pre = c.get("pre") or []
+        apply_step(pre, objs, peeker(pre, None, 0))
+    except Exception as e:  # noqa: BLE001
+        return SEP.join(["harness-error:" + type(e).__name__] * (len(steps) + 1))
     out = [evaluate()]
-    for st in steps:
+    for k, st in enumerate(steps):
         try:
-            apply_step(st, objs)
+            apply_step(st, objs, peeker(st, k, k + 1))
         except Exception as e:  # noqa: BLE001
             out.append("harness-error:" + type(e).__name__)
             continue
         out.append(evaluate())
+    kept.clear()
     return SEP.join(out)
 
 
@@ -519,6 +654,7 @@ def oracle_rows(c) -> str:
                 rows.append(_row(((x,) if keep_root else ()) + r, ids))
         return canon(rows)
 
+    apply_step(c.get("pre") or [], objs)
     out = [state()]
     for st in c.get("steps") or []:
         apply_step(st, objs)
@@ -527,6 +663,7 @@ def oracle_rows(c) -> str:
 
 
 _stats: Dict[str, int] = {"oracle_checked": 0}
+_ROW_RE = __import__("re").compile(r"\([^()]*\)")
 
 
 def _count(k: str, n: int = 1) -> None:
@@ -535,14 +672,38 @@ def _count(k: str, n: int = 1) -> None:
 
 def run_impl(cases):
     out = []
+    all_peeks = []
     for c in cases:
         revive(c)
-        out.append(_one(c.payload))
+        pk: list = []
+        out.append(_one(c.payload, pk))
+        all_peeks.append(pk)
     # cross-check the Lean spec with the independent oracle (a wrong spec must not hide behind a right proof)
     specs = Driver(PID).run([c.line for c in cases])
-    for c, d in zip(cases, specs):
+    for k, (c, d) in enumerate(zip(cases, specs)):
         if "spec" not in d:
             continue
+        if all_peeks[k]:
+            _count("cases_with_abandoned_evaluations")
+            _count("abandoned_evaluations", len(all_peeks[k]))
+            _count("abandoned_evaluations_that_handed_out_rows", sum(1 for _s, g in all_peeks[k] if g and g != []
+                                                                     and not isinstance(g, str)))
+            # what an abandoned evaluation handed out must be among the specified rows of that moment (outside the
+            # open findings, whose inputs are excused through the quirk-on model only for complete evaluations)
+            if not d.get("trig") and not out[k].startswith(("exc:", "harness-error:")):
+                segs = d["spec"].split(SEP)
+                bad = []
+                for seg, got in all_peeks[k]:
+                    if isinstance(got, str):
+                        bad.append("!peek-" + got)
+                    elif seg is not None and seg < len(segs):
+                        allowed = set(_ROW_RE.findall(segs[seg]))
+                        bad += ["!peek-outside-spec:" + r for r in got if r not in allowed]
+                        _count("abandoned_evaluations_checked_against_spec")
+                if bad:
+                    out[k] = out[k] + " " + " ".join(sorted(set(bad)))
+        if c.payload.get("domkind", "list") != "list":
+            _count("domain_as_" + c.payload["domkind"])
         o = oracle_rows(c.payload)
         _stats["oracle_checked"] += 1
         trig = [t for t in d.get("trig", "").split(",") if t]
@@ -557,9 +718,9 @@ def run_impl(cases):
             _count("in_scope_of_C11_equiv_partial" if d.get("nsel") == "0" else "clean_with_selected_parts")
         if d.get("conf") != "true":
             _count("world_not_conforming")
-        if c.payload.get("steps"):
+        if c.payload.get("steps") or any(e[0] == "peek" for e in c.payload.get("pre") or []):
             _count("reevaluation_cases")
-            _count("reevaluations_of_the_same_query_object", len(c.payload["steps"]))
+            _count("reevaluations_of_the_same_query_object", len(c.payload.get("steps") or []))
             segs = d["spec"].split(SEP)
             if len(set(segs)) > 1:
                 _count("reevaluation_cases_whose_specified_answer_changes")
@@ -835,6 +996,8 @@ def simulate(c):
     states = []
     for st in c.get("steps") or []:
         for e in st:
+            if e[0] == "peek":
+                continue
             if e[0] == "set":
                 if e[1] not in alive or field_info(cur[e[1]]["cls"], e[2]) is None:
                     return None
@@ -993,7 +1156,34 @@ def gen_case(rng):
         if steps:
             c["steps"] = steps
             assert simulate(c) is not None, "generated steps must be executable and keep the data conforming"
+    r = rng.random()
+    if r < 0.3:  # the domain is consumed lazily: a one-shot generator / iterator (or a tuple)
+        c["domkind"] = rng.choice(["gen", "gen", "iter", "tuple"])
+    if rng.random() < 0.3:
+        add_abandoned(rng, c)
     return c
+
+
+def gen_peek(rng):
+    return ("peek", rng.choice([0, 1, 1, 1, 1, 2, 2, 3]), rng.random() < 0.5)
+
+
+def add_abandoned(rng, c) -> None:
+    """evaluations of the same query object that are abandoned after k results: before the first complete evaluation
+    (the engine's lazily filled domain cache is then still incomplete), and at the beginning / end of the steps; when
+    the case has no steps, a step that consists of an abandoned evaluation only is added half of the time"""
+    if rng.random() < 0.8:
+        c["pre"] = [gen_peek(rng) for _ in range(rng.choice([1, 1, 1, 2]))]
+    steps = c.get("steps")
+    if not steps:
+        if rng.random() < 0.5 or not c.get("pre"):
+            c["steps"] = [[gen_peek(rng) for _ in range(rng.choice([1, 1, 2]))]]
+        return
+    for st in steps:
+        if rng.random() < 0.5:
+            st.insert(0, gen_peek(rng))
+        if rng.random() < 0.5:
+            st.append(gen_peek(rng))
 
 
 def generate(rng, tier, n):
@@ -1011,6 +1201,10 @@ def generate(rng, tier, n):
             kinds = {("set-in-place" if e[4] else "set-" + e[3][0]) if e[0] == "set" else e[0]
                      for st in c["steps"] for e in st}
             tags += sorted("edit-" + k for k in kinds)
+        if c.get("pre"):
+            tags.append("abandoned-before-first-evaluation")
+        if c.get("domkind", "list") != "list":
+            tags.append("domain-" + c["domkind"])
         out.append(Case(sx_case(c), tuple(tags), "random", c))
     return out
 
@@ -1051,6 +1245,8 @@ def _shrink_steps(c):
         for j, e in enumerate(st):
             if e[0] == "set" and e[4]:
                 yield steps[:i] + [st[:j] + [e[:4] + (False,)] + st[j + 1:]] + steps[i + 1:]
+            if e[0] == "peek" and e[1] > 1:
+                yield steps[:i] + [st[:j] + [("peek", 1, e[2])] + st[j + 1:]] + steps[i + 1:]
 
 
 def shrink(case: Case):
@@ -1066,6 +1262,19 @@ def shrink(case: Case):
     def ok(d) -> bool:
         return not d.get("steps") or simulate(d) is not None
 
+    if c.get("pre"):
+        yield Case(sx_case({k: v for k, v in c.items() if k != "pre"}), case.tags, "shrink",
+                   {k: v for k, v in c.items() if k != "pre"})
+        for j, e in enumerate(c["pre"]):
+            if len(c["pre"]) > 1:
+                d = {**c, "pre": c["pre"][:j] + c["pre"][j + 1:]}
+                yield Case(sx_case(d), case.tags, "shrink", d)
+            if e[0] == "peek" and e[1] > 1:
+                d = {**c, "pre": c["pre"][:j] + [("peek", 1, e[2])] + c["pre"][j + 1:]}
+                yield Case(sx_case(d), case.tags, "shrink", d)
+    if c.get("domkind", "list") != "list":
+        d = {k: v for k, v in c.items() if k != "domkind"}
+        yield Case(sx_case(d), case.tags, "shrink", d)
     for i in range(len(c["dom"])):
         d = {**c, "dom": c["dom"][:i] + c["dom"][i + 1:]}
         if ok(d):
